@@ -69,6 +69,10 @@ pub struct Log {
     pub step_idx: usize,
     pub faults_fired: u64,
     pub vectored_reads: u64,
+    /// wake-ups issued by helper threads (thread_wake plans) and the polls seen since the last of them
+    pub wakes_issued: u64,
+    pub polls_since_wake: u64,
+    pub last_wake: Option<std::time::Instant>,
     pub parked: Option<Waker>,
     /// (offset, requested, delivered) for the first calls, for witnesses
     pub trace: Vec<(usize, usize, isize)>,
@@ -83,6 +87,11 @@ impl Shared {
     }
     pub fn take_parked(&self) -> Option<Waker> {
         self.0.lock().unwrap().parked.take()
+    }
+    /// (wake-ups issued by helper threads, polls seen since the last one, seconds since the last one)
+    pub fn wake_state(&self) -> (u64, u64, f64) {
+        let l = self.0.lock().unwrap();
+        (l.wakes_issued, l.polls_since_wake, l.last_wake.map(|t| t.elapsed().as_secs_f64()).unwrap_or(0.0))
     }
     pub fn snapshot(&self) -> (usize, u64, u64, u64, u64, u64) {
         let l = self.0.lock().unwrap();
@@ -112,6 +121,7 @@ impl Scripted {
     fn next(&mut self, want: usize, is_async: bool) -> Next {
         let mut l = self.shared.0.lock().unwrap();
         l.calls += 1;
+        l.polls_since_wake += 1;
         if want > l.max_request {
             l.max_request = want;
         }
@@ -255,8 +265,15 @@ impl AsyncRead for Scripted {
                     cx.waker().wake_by_ref();
                 } else if self.plan.thread_wake {
                     let w = cx.waker().clone();
+                    let sh = self.shared.clone();
                     std::thread::spawn(move || {
                         std::thread::yield_now();
+                        {
+                            let mut l = sh.0.lock().unwrap();
+                            l.wakes_issued += 1;
+                            l.polls_since_wake = 0;
+                            l.last_wake = Some(std::time::Instant::now());
+                        }
                         w.wake();
                     });
                 } else {
@@ -281,8 +298,15 @@ impl AsyncRead for Scripted {
                     cx.waker().wake_by_ref();
                 } else if self.plan.thread_wake {
                     let w = cx.waker().clone();
+                    let sh = self.shared.clone();
                     std::thread::spawn(move || {
                         std::thread::yield_now();
+                        {
+                            let mut l = sh.0.lock().unwrap();
+                            l.wakes_issued += 1;
+                            l.polls_since_wake = 0;
+                            l.last_wake = Some(std::time::Instant::now());
+                        }
                         w.wake();
                     });
                 } else {
